@@ -12,10 +12,10 @@ from harness.structs_common import *
 PLACE = {'HA': 'vec2<u32>', 'HB': 'vec3<u32>', 'HC': 'vec4<u32>'}
 
 
-def render(spell=None):
+def render(spell=None, decls=''):
     s = dict(PLACE)
     s.update(spell or {})
-    return f'''struct Inner {{ a: f32, b: vec3<f32> }}
+    return decls + f'''struct Inner {{ a: f32, b: vec3<f32> }}
 struct Inner2 {{ a: f32, b: vec3<f32> }}
 struct Host {{
   m0: {s["HA"]},
@@ -57,7 +57,7 @@ def run(ctx):
     fmt = z3.BitVec('matrix_vector_types', 64)
     ctx.bounds = {'structs': 'Host (5 members: 2 symbolic, nested struct, array of struct, symbolic trailing member) + vertex struct with interleaved builtins + nested Inner',
                   'member type': 'scalar/atomic/vector/matrix with kind, width, size, cols, rows symbolic; arrays of length any non-zero u32 over {f32, Inner, another hole}; nesting <= 2',
-                  'representation': 'Rust / Glam / Nalgebra (symbolic)'}
+                  'representation': 'Rust / Glam / Nalgebra (symbolic)', 'type names': 'every symbolic member type is written directly or through a WGSL alias (symbolic)'}
     ctx.assumptions += ['scalar (kind, width) restricted to what WGSL can spell: i32 u32 f32 f64 bool (other widths make the generator refuse with todo!)',
                         'for `[[T; a]; b]` matrices the multiset {a, b} must equal {rows, cols} (the statement speaks of element counts); nalgebra must be exactly SMatrix<T, rows, cols>',
                         'an unknown Rust type name is inconclusive (exit 2), not a violation']
@@ -84,13 +84,15 @@ def run(ctx):
     opts_fixed = dict(derive_encase_host_shareable=True)
     for plan in plans:
         module = c.module(S.dump(src))
+        types_ = c.get(module, 'types').fields[0].items
         for k, h in holes.items():
             set_inner(ctx, module, hh[k], h.inner(ctx))
+            c.set(types_[hh[k]], 'name', h.name_value())        # written directly or through `alias X = ...;` (symbolic)
         assume = [z3.ULT(fmt, 3)]
         for k, h in holes.items():
             assume += h.assumption()
             if k not in plan:
-                assume += pin(h)
+                assume += pin(h) + [z3.Not(h.aliased)]
             # types are unique in naga's arena: a symbolic array type is not the template's own `array<Inner, 3>`,
             # and two symbolic array types are not the same type
             if h.bases:
@@ -106,13 +108,14 @@ def run(ctx):
                 m = ctx.check(pc, z3.BoolVal(True))
                 vals = {k: h.describe(m) for k, h in holes.items()}
                 spell = {k: h.wgsl(m) for k, h in holes.items()}
-                if all(spell.values()):
-                    k2, r2, _ = ctx.gen_tokens(render(spell), dict(opts_fixed, matrix_vector_types=['Rust', 'Glam', 'Nalgebra'][model_value(m, fmt)]))
+                decls = [h.alias_decl(m) for h in holes.values()]
+                if all(spell.values()) and None not in decls:
+                    k2, r2, _ = ctx.gen_tokens(render(spell, ''.join(decls)), dict(opts_fixed, matrix_vector_types=['Rust', 'Glam', 'Nalgebra'][model_value(m, fmt)]))
                     if k2 == 'panic':
                         key = 'C06/refuses:' + out[:50]
                         seen[key] = seen.get(key, 0) + 1
                         if seen[key] == 1:
-                            ctx.report(key, f'generator panics ({out}) on member types {spell}', {'wgsl': render(spell)}, True)
+                            ctx.report(key, f'generator panics ({out}) on member types {spell}', {'wgsl': render(spell, ''.join(decls))}, True)
                     elif k2 == 'err':
                         pass            # the front end rejects this spelling (e.g. atomic<f32>): outside the input space
                     else:
@@ -141,12 +144,13 @@ def run(ctx):
         for r in oks[::step]:
             m = ctx.witness(r[0])
             spell = {k: h.wgsl(m) for k, h in holes.items()}
-            if not all(spell.values()):
+            decls = [h.alias_decl(m) for h in holes.values()]
+            if not all(spell.values()) or None in decls:
                 continue
             o = dict(opts_fixed, matrix_vector_types=['Rust', 'Glam', 'Nalgebra'][model_value(m, fmt)])
-            k2, _, _ = ctx.gen_tokens(render(spell), o)
+            k2, _, _ = ctx.gen_tokens(render(spell, ''.join(decls)), o)
             if k2 == 'ok':
-                ctx.differential(render(spell), o)
+                ctx.differential(render(spell, ''.join(decls)), o)
                 ctx.sample({'members': spell, 'representation': o['matrix_vector_types']})
     ctx.extra['violations_by_rule'] = seen
 
@@ -201,10 +205,11 @@ def conditions(sts, order, holes, base_match_for):
 
 def replay(ctx, holes, fmt, m, opts_fixed, base_match_for, failed):
     spell = {k: h.wgsl(m) for k, h in holes.items()}
-    if not all(spell.values()):
+    decls = [h.alias_decl(m) for h in holes.values()]
+    if not all(spell.values()) or None in decls:
         return False, {'note': f'no WGSL spelling for {spell}'}
     o = dict(opts_fixed, matrix_vector_types=['Rust', 'Glam', 'Nalgebra'][model_value(m, fmt)])
-    src = render(spell)
+    src = render(spell, ''.join(decls))
     kind, toks, _ = ctx.gen_tokens(src, o)
     det = {'wgsl': src, 'options': o}
     if kind != 'ok':
